@@ -2,14 +2,14 @@
 is replayed on the real objects and the recorded events are validated by spec/WorkflowTrace.tla; longer random histories
 come from TLC's simulator.  The result is computed once per (tree, harness, specification, tier, seed) and shared by the
 checks that use it: each check is answerable for the objects of its property
-   IC -> C18   HS -> C04   SYM, S -> C07   H -> C03   DM, EA -> C09   CX, C, QA, OPS -> C10   GF -> C01   X -> C02   SU -> C14   V -> C15
+   IC -> C18   HS -> C04   SYM, S -> C07   H, HP -> C03   DM, EA -> C09   CX, C, QA, OPS -> C10   GF -> C01   X -> C02   SU -> C14   V -> C15
 and C17 replays the documented transitions under ASan/UBSan.
 Calls the code rejects by exStatusMismatch (Guarded in the specification) are replayed and validated as well, but a
 disagreement on one of them is reported as a note, not as a violation: no listed property speaks about misuse."""
 import fcntl, hashlib, json, os, random, time
 import pv, models, build
 
-OWNER = {"IC": "C18", "HS": "C04", "SYM": "C07", "S": "C07", "H": "C03", "DM": "C09", "EA": "C09", "CX": "C10", "C": "C10", "QA": "C10", "OPS": "C10",
+OWNER = {"IC": "C18", "HS": "C04", "SYM": "C07", "S": "C07", "H": "C03", "HP": "C03", "DM": "C09", "EA": "C09", "CX": "C10", "C": "C10", "QA": "C10", "OPS": "C10",
          "GF": "C01", "X": "C02", "SU": "C14", "V": "C15"}
 
 
@@ -131,6 +131,19 @@ def conformance(tier, seed, variant="plain"):
         t0 = time.time()
         thorough = tier == "thorough"
         out = {"states": 0, "transitions": 0, "accepted_events": 0, "scenarios": 0, "variant": variant, "tier": tier}
+        mc = pv.run_tlc("WorkflowMC", "WorkflowMC", workers=8, timeout=1800)
+        if not mc.ok:
+            pv.log("INFRA: Workflow.tla violates its own properties: %s\n%s" % (mc.violated or mc.error, mc.stdout[-1500:]))
+            raise SystemExit(2)
+        out["states"] += mc.distinct
+        out["transitions"] += mc.generated
+        out["mc_cmd"] = mc.cmd
+        if thorough and variant == "plain":
+            lv = pv.run_tlc("Workflow", "WorkflowLive", workers=8, timeout=3600, heap="8g")
+            if not lv.ok:
+                pv.log("INFRA: Workflow.tla: Completes does not hold under fairness: %s\n%s" % (lv.violated or lv.error, lv.stdout[-1500:]))
+                raise SystemExit(2)
+            out["liveness_cmd"] = lv.cmd
         res, trans = transitions()
         out["graph"] = {"distinct": res.distinct, "transitions": len(trans), "documented": sum(1 for t in trans if t["doc"])}
         out["states"] += res.distinct
@@ -140,9 +153,14 @@ def conformance(tier, seed, variant="plain"):
         exe = pv.harness(variant, "pv_driver")
         if variant == "asan":
             trans = [t for t in trans if t["doc"]]
-            plan = [(ms[:1], 1 if thorough else 3), (ms[1:2], 8 if thorough else 48)] + ([(ms[2:], 24)] if thorough else [])
+        # the graph has several hundred thousand transitions: every one is replayed in the thorough tier on the first model; otherwise a
+        # seed-dependent sample (stride) that still visits every (object, call) in every status of that object many times
+        def stride_for(target):
+            return max(1, len(trans) // target)
+        if variant == "asan":
+            plan = [(ms[:1], stride_for(60000 if thorough else 6000)), (ms[1:2], stride_for(3000 if thorough else 350))] + ([(ms[2:], stride_for(1500))] if thorough else [])
         else:
-            plan = [(ms[:1], 1), (ms[1:2], 2 if thorough else 16)] + ([(ms[2:], 6)] if thorough else [])
+            plan = [(ms[:1], 1 if thorough else stride_for(24000)), (ms[1:2], stride_for(24000 if thorough else 1200))] + ([(ms[2:], stride_for(6000))] if thorough else [])
         scen = []
         for (mm, stride) in plan:
             scen += path_scenarios(mm, trans, stride=stride, offset=seed)
@@ -196,7 +214,7 @@ def attach(c, objs, what, variant="plain"):
     c.evaluations += r["accepted_events"]
     c.nontriv("workflow transition graph (%d transitions, %d scenarios replayed, %s build)" % (r["graph"]["transitions"], r["scenarios"], variant))
     c.extra["workflow_" + variant] = {k: r[k] for k in ("graph", "scenarios", "accepted_events", "simulated_histories", "wall", "cached") if k in r}
-    for k in ("emit_cmd", "tlc_cmd", "sim_cmd"):
+    for k in ("mc_cmd", "liveness_cmd", "emit_cmd", "tlc_cmd", "sim_cmd"):
         if k in r and r[k] not in c.tlc_cmds:
             c.tlc_cmds.append(r[k])
     return r
